@@ -284,14 +284,19 @@ def r6(c):
     fm = P.fn('rodbus::tcp::frame::format_mbap')
     pos = fm.calls('scursor::write::WriteCursor::position')
     w16 = fm.calls('scursor::write::WriteCursor::write_u16_be')
-    lenw = [cs for cs in w16 if 'mbap_len_field' in q.chain_names(fm, cs.args[1]) or 'mbap_len_field' in q.closure_names(fm, cs.args[1])]
+    # the length write: the u16 write whose value derives from cursor positions (the other two write the tx id and protocol id 0)
+    lenw = [cs for cs in w16 if any(x[0] == 'call' and x[1] == 'scursor::write::WriteCursor::position' for x in fm.op_closure(cs.args[1]))]
     ok = len(lenw) == 1
     if ok:
         cl = fm.op_closure(lenw[0].args[1])
         srcs = {x[2] for x in cl if x[0] == 'call' and x[1] == 'scursor::write::WriteCursor::position'}
         ok = len(srcs) == 2
         sk = fm.calls('scursor::write::WriteCursor::seek_to')
-        ok = ok and len(sk) == 2 and fm.dominates(sk[0].node, lenw[0].node) and 'len_pos' in q.chain_names(fm, sk[0].args[1])
+        sk = sorted(sk, key=lambda cs_: sum(1 for o_ in sk if fm.dominates(o_.node, cs_.node)))
+        # the first seek goes back to a position recorded before the placeholder was written
+        sv = q.sem(fm, sk[0].args[1]) if sk else None
+        ok = ok and len(sk) == 2 and fm.dominates(sk[0].node, lenw[0].node) and sv is not None and sv.kind == 'call' and sv.cs.is_('scursor::write::WriteCursor::position') and \
+            fm.dominates(sv.cs.node, sk[0].node) and fm.dominates(lenw[0].node, sk[1].node)
     c.ob('mbap/length', ok, 'the MBAP length field derives from the cursor positions at the start and end of the PDU and is written at the reserved position', '%d candidate writes' % len(lenw), loc_of(fm))
 
 
@@ -354,27 +359,66 @@ def bit_packing_fold(c, b, nm, wr, fold):
     c.ob('%s/only-set-bits' % nm, okf, 'the fold sees exactly the positions whose bit is true (filter on the bit itself)', '', fold.loc())
 
 
-def bit_packing_rule(c, path, acc='acc', pos_var=None, chunk8=False):
+def user_local_of(b, o):
+    """the user variable an operand is a plain copy / move of (through compiler temporaries), or None"""
+    if o is None or o.get('k') not in ('copy', 'move'):
+        return None
+    pl = o['pl']
+    guard = 0
+    while guard < 8:
+        guard += 1
+        if pl['p']:
+            return None
+        l = pl['l']
+        if l in b.user_locals_named():
+            return l
+        ds = b.whole_defs(l)
+        if len(ds) != 1 or ds[0][0] != 'assign' or ds[0][2]['rv']['r'] not in ('use', 'cast') or ds[0][2]['rv']['a'][0].get('k') not in ('copy', 'move'):
+            return None
+        pl = ds[0][2]['rv']['a'][0]['pl']
+    return None
+
+
+def packing_vars(b):
+    """(flush write, accumulator local, position local) of a bit-packing loop, identified by what they do - the byte written
+    inside the loop, the variable OR-ed with a shifted 1, the shift amount - not by their names"""
+    w8 = b.calls('scursor::write::WriteCursor::write_u8')
+    looped = [cs for cs in w8 if b.in_cycle(cs.node)]
+    if len(looped) != 1:
+        return looped, None, None
+    acc = user_local_of(b, looped[0].args[1])
+    pos = None
+    if acc is not None:
+        for i, st in b.assigns():
+            if st['rv']['r'] == 'bin' and st['rv']['op'] == 'BitOr' and st['pl']['l'] == acc and not st['pl']['p']:
+                for a_ in st['rv']['a']:
+                    sm = q.sem(b, a_)
+                    if sm.kind == 'bin' and sm.extra[1] in ('Shl', 'ShlUnchecked'):
+                        pos = user_local_of(b, sm.extra[3])
+    return looped, acc, pos
+
+
+def bit_packing_rule(c, path, acc=None, pos_var=None, chunk8=False):
     """structural half of LSB-first packing: one accumulator byte per 8 bits, cleared for every byte, bit i set by
     `1 << position` with the position restarting for every byte"""
     P = c.P
     b = P.fn(path)
     c.saw(b, len(b.calls()))
-    w8 = b.calls('scursor::write::WriteCursor::write_u8')
-    looped = [cs for cs in w8 if b.in_cycle(cs.node)]
     nm = path.split(' as ')[0].lstrip('<')
+    looped, acc_l, pos_l = packing_vars(b)
     if chunk8 and len(looped) == 1:
         fv = q.sem(b, looped[0].args[1])
         if fv.kind == 'call' and fv.cs.declared == 'core::iter::traits::iterator::Iterator::fold' and not fv.proj:
             return bit_packing_fold(c, b, nm, looped[0], fv.cs)
-    c.ob('%s/flush-site' % nm, len(looped) == 1 and acc in q.chain_names(b, looped[0].args[1]), 'one write_u8 inside the loop flushes the accumulator', '%d looped writes' % len(looped), loc_of(b))
-    if len(looped) != 1:
+    c.ob('%s/flush-site' % nm, len(looped) == 1 and acc_l is not None, 'one write_u8 inside the loop flushes a byte-sized accumulator variable', '%d looped writes' % len(looped), loc_of(b))
+    if len(looped) != 1 or acc_l is None:
         return
+    acc = b.name_of(acc_l).split('#')[0]
     ok, why = q.reinitialised_each_iteration(b, looped[0].node, acc, 0)
     c.ob('%s/acc-cleared' % nm, ok, 'the accumulator is reset to 0 on every path between two flushes (no bits leak into the next byte)', why, looped[0].loc())
     c.ob('%s/flush-checked' % nm, bool(q.outcomes(b, looped[0]).get('success')), 'a failing write ends the serialisation', '', looped[0].loc())
     # bit set: acc |= 1 << pos
-    ors = [(i, s) for i, s in b.assigns() if s['rv']['r'] == 'bin' and s['rv']['op'] == 'BitOr' and s['pl']['l'] in [pl['l'] for n, pl in b.names.items() if n.split('#')[0] == acc]]
+    ors = [(i, s) for i, s in b.assigns() if s['rv']['r'] == 'bin' and s['rv']['op'] == 'BitOr' and s['pl']['l'] == acc_l]
     okb = len(ors) == 1
     detail = '%d BitOr into %s' % (len(ors), acc)
     if okb:
@@ -384,23 +428,24 @@ def bit_packing_rule(c, path, acc='acc', pos_var=None, chunk8=False):
             sm = q.sem(b, a)
             if sm.kind == 'bin' and sm.extra[1] in ('Shl', 'ShlUnchecked'):
                 sh = sm
-        okb = sh is not None and q.const_val(b, sh.extra[2]) == 1
-        if okb and pos_var:
-            names = q.closure_names(b, sh.extra[3])
-            okb = pos_var in names
-            detail += ', shift amount depends on %s' % sorted(names)
-    c.ob('%s/bit-set' % nm, okb, 'a set bit is merged as `1 << position` (LSB first)', detail, loc_of(b))
-    if pos_var and not chunk8:
-        ok2, why2 = q.reinitialised_each_iteration(b, looped[0].node, pos_var, 0)
+        okb = sh is not None and q.const_val(b, sh.extra[2]) == 1 and pos_l is not None
+        detail += ', shift amount variable %s' % (b.name_of(pos_l) if pos_l is not None else None)
+    c.ob('%s/bit-set' % nm, okb, 'a set bit is merged as `1 << position` (LSB first), the position being a variable of the loop', detail, loc_of(b))
+    if pos_l is not None and not chunk8:
+        ok2, why2 = q.reinitialised_each_iteration(b, looped[0].node, b.name_of(pos_l).split('#')[0], 0)
         c.ob('%s/position-restarts' % nm, ok2, 'the bit position restarts at 0 for every byte', why2, looped[0].loc())
     if chunk8:
         ch = [cs for cs in b.calls() if cs.callee.endswith('::chunks')]
-        c.ob('%s/chunks-of-8' % nm, len(ch) == 1 and q.const_val(b, ch[0].args[1]) == 8, 'bits are taken 8 at a time', '', loc_of(b))
+        okc = len(ch) == 1 and q.const_val(b, ch[0].args[1]) == 8
+        if okc and pos_l is not None:
+            # the position is the enumerate() index over one chunk
+            okc = any(y[0] == 'call' and y[1] == 'core::iter::traits::iterator::Iterator::enumerate' for y in b.closure_of(pos_l))
+        c.ob('%s/chunks-of-8' % nm, okc, 'bits are taken 8 at a time; the position is the index inside the chunk', '', loc_of(b))
 
 
 @rule('C03', 'R03.7', 'coil packing in write-multiple-coils requests: one cleared accumulator per byte, bit i at 1 << i')
 def r7(c):
-    bit_packing_rule(c, '<&[bool] as rodbus::common::traits::Serialize>::serialize', 'acc', 'count', chunk8=True)
+    bit_packing_rule(c, '<&[bool] as rodbus::common::traits::Serialize>::serialize', chunk8=True)
     P = c.P
     b = P.fn('<&[u16] as rodbus::common::traits::Serialize>::serialize')
     w = [cs for cs in b.calls('scursor::write::WriteCursor::write_u16_be') if b.in_cycle(cs.node)]
